@@ -22,3 +22,5 @@ try:
             print(f'[{i}] exit={r.returncode} {time.time()-t:.0f}s', ' || '.join(sigs))
 finally:
     subprocess.run(['git', '-C', '/repo', 'checkout', '--', f])
+    # the binaries under /verif/target now contain the mutation: rebuild from the restored tree
+    subprocess.run(['/verif/build.sh', 'all'], capture_output=True, cwd='/verif')
